@@ -50,6 +50,21 @@ func TestC18(t *testing.T) {
 			}
 		}
 	}
+	// the other order: the plugin has already exited gracefully (a second, reattached client shut it down) when
+	// the first client is killed; the first client's resources must be released all the same
+	for _, proto := range []string{"netrpc", "grpc"} {
+		for _, h := range [][]string{nil, {"callback"}, {"revcallback"}, {"callback", "revcallback"}} {
+			ops := append([]string{"new", "start", "client", "dispense"}, h...)
+			ops = append(ops, "reattach:0", "start", "client", "dispense", "kill:1", "waitexit:0", "kill:0")
+			cells = append(cells, Cell{
+				Name:     fmt.Sprintf("%s mux=false tls=none launch=cmd history=[%s] plugin shut down through a reattached client first", proto, strings.Join(h, ",")),
+				Plugin:   PluginConf{CookieKey: cookieKey, CookieValue: cookieVal, Legacy: 1, LegacyProto: proto, GRPCServer: true, TLS: "none", ExitMarker: "auto"},
+				Host:     HostConf{Allowed: []string{"netrpc", "grpc"}, TLS: "none", Launch: "cmd", Legacy: 1, SkipHostEnv: true},
+				Ops:      ops,
+				LeakWait: 7000,
+			})
+		}
+	}
 	results := runCells(base, cells)
 	out := &enumResult{Exhaustive: true, Outcomes: map[string]int{}}
 	for i, r := range results {
